@@ -129,6 +129,12 @@ def run(ctx, chk):
                instance_filter=lambda i: any(s_ in str(i) for s_ in ("tlv::StatusInformation", "tlv::Subs", "packets::StatusInformation")))
     rules_c03._run_own(ctx, sub3)
     chk.floor("status-information layout rows (shared with C03-a)", sub3.count, 6)
+    # ... whose containers are BER-TLV: a card with many applications needs the 0x81 / 0x82 length forms - a reader that gets
+    # one of them wrong turns a bank card into a decoding error (the C16-b clauses of the Tlv length style)
+    import rules_c16
+    sub16 = Sub(chk, "C18/layout", lambda r: r.startswith("C16-b/"), instance_filter=lambda i: str(i).startswith("Tlv"))
+    rules_c16.run(ctx, sub16)
+    chk.floor("TLV length-form obligations (shared with C16-b)", sub16.count, 4)
     chk.floor("C18 obligations", len(chk.obligations), 14)
 
 
